@@ -342,7 +342,9 @@ class Program:
         self.classes[c.qualname] = c
         for st in node.body:
             if isinstance(st, (ast.FunctionDef, ast.AsyncFunctionDef)):
-                f = self._make_func(mod, c, None, st, st.name)
+                dnames = [dotted(d.func if isinstance(d, ast.Call) else d) for d in st.decorator_list]
+                is_setter = any(d and d.endswith(".setter") for d in dnames)
+                f = self._make_func(mod, c, None, st, st.name, suffix=".setter" if is_setter else "")
                 decs = f.decorator_names()
                 if "property" in decs:
                     f.kind = "property_get"
@@ -351,7 +353,6 @@ class Program:
                 elif any(d and d.endswith(".setter") for d in decs):
                     f.kind = "property_set"
                     f.prop_name = st.name
-                    f.qualname = f.qualname + ".setter"
                     c.props.setdefault(st.name, {})["set"] = f
                 else:
                     if "classmethod" in decs:
@@ -361,11 +362,6 @@ class Program:
                     else:
                         f.kind = "method"
                     c.methods[st.name] = f
-                # re-register under final qualname
-                self.funcs = {k: v for k, v in self.funcs.items() if v is not f}
-                self.funcs[f.qualname] = f
-                for sub in self._all_nested(f):
-                    pass
             elif isinstance(st, ast.Assign):
                 for t in st.targets:
                     if isinstance(t, ast.Name):
@@ -381,8 +377,11 @@ class Program:
             yield g
             yield from self._all_nested(g)
 
-    def _make_func(self, mod, cls, parent, node, name):
+    def _make_func(self, mod, cls, parent, node, name, suffix=""):
         f = Func(self, mod, cls, parent, node, name)
+        f.qualname += suffix
+        if f.qualname in self.funcs:
+            raise AnalysisError(f"duplicate definition of {f.qualname}")
         self.funcs[f.qualname] = f
         self._scan_nested(f)
         return f
